@@ -26,6 +26,16 @@ OUTPUTS = [
 ]
 
 
+# fork stress configurations: identity data sources (NSS lookups), and an error raised in every call with error logging on
+STRESS_INIS = [
+    ("identity-data-sources", 3, 150, 600,
+     b'[snoopy]\noutput = file:@D@/out.log\nmessage_format = "%{username} %{eusername} %{group} %{egroup} %{tty_username} %{login} %{hostname} %{filename}"\n'),
+    ("datetime", 6, 600, 12000, b'[snoopy]\noutput = devnull\nmessage_format = "%{datetime} %{filename}"\n'),
+    ("error-in-every-call", 6, 500, 3000,
+     b'[snoopy]\noutput = devnull\nerror_logging = yes\nlog_message_max_length = 255\nmessage_format = "%{snoopy_literal:' + b"L" * 300 + b'}%{cmdline}"\n'),
+]
+
+
 def outcome(r):
     """canonical observation of one fork run"""
     o = {"fork": None, "child": None, "grandchild": None, "parent_call": False, "parked": False, "release": None, "own_prepare": None}
@@ -139,6 +149,49 @@ def check(run):
                     viol("fork:outcome-differs", "correspondence",
                          "window %d (output %s): implementation: fork %s, child %s; model with the recognised handlers: fork %s, child %s" % (k, name, o["fork"], o["child"], want_fork, want_child),
                          i, o, {"model": preds[i]})
+        # ---------------------------------------------------------------- fork from a signal handler that interrupts a lock window of its own thread
+        locks_file = calib["file"][2]
+        repo_ks = [j + 1 for j in range(len([1 for (kind, _) in locks_file if kind == "m"]))]
+        ks = repo_ks if not quick else sorted(set([repo_ks[0], repo_ks[len(repo_ks) // 2], repo_ks[-1]])) if repo_ks else []
+
+        def sjob(k):
+            r = run_mt(run, lib, "sigfork", 2, 1, str(k), OUTPUTS[0][1], "sigfork-%d" % k, timeout=60)
+            o = outcome(r)
+            o["signalled"] = any(f[0] == "signal" for f in r["trace"]["other"])
+            o["fork_returned"] = any(f[:2] == ["fork", "returned"] for f in r["trace"]["other"])
+            o["thread_done"] = (1, 0, -1, 2) in r["trace"]["ret"]
+            return (k, o, r["stderr"][-300:])
+        for (k, o, err) in run_many(sjob, ks, workers=8):
+            if not o["signalled"]:
+                raise CheckError("sigfork: the signal was never raised in lock window %d (%s)" % (k, o))
+            st["sigfork"] = st.get("sigfork", 0) + 1
+            if o["fork_returned"] and o["child"] == "completes" and o["thread_done"] and o["status"] == 0:
+                continue
+            what = ("fork() in the signal handler never returned: the prepare handler blocks on the mutex its own thread holds" if not o["fork_returned"]
+                    else "the child %s" % o["child"] if o["child"] != "completes" else "the interrupted thread did not finish its call")
+            if "sigfork" not in seen:
+                seen.add("sigfork")
+                run.violation("sigfork:%s" % ("fork-never-returned" if not o["fork_returned"] else "child-%s" % o["child"] if o["child"] != "completes" else "thread-stuck"), "timeout",
+                              "a signal arrives on a thread right after the %d-th acquisition of the repository mutex in its wrapped call; its handler forks and the child execs: %s" % (k, what),
+                              {"failing_input": {"mode": "sigfork", "lock_window": k, "output": "file"}, "mode": "sigfork", "window": k, "ini": OUTPUTS[0][1].decode(), "observed": o})
+        # ---------------------------------------------------------------- fork stress: forks taken at arbitrary instants, also inside libc calls no interposer sees
+        for (sname, nthr, fq, ft, sini) in STRESS_INIS:
+            forks = fq if (quick and ok) else ft          # a broken obligation widens the search
+            r = run_mt(run, lib, "forkstress", nthr, 1, str(forks), sini, "forkstress-" + sname, timeout=600)
+            fs = [f for f in r["trace"]["other"] if f[0] == "forkstress"]
+            done = [f for f in fs if f[1] == "done"]
+            bad = [f for f in fs if f[1] == "child"]
+            st["forkstress"] = st.get("forkstress", 0) + (int(done[0][2]) if done else 0)
+            if bad:
+                run.violation("forkstress:child-%s:%s" % ("blocked" if bad[0][3:] == ["signal", "14"] else "-".join(bad[0][3:]), sname), "timeout",
+                              "several threads make wrapped exec calls in a loop (%s), the main thread forks: the child of fork #%s %s in its own exec call "
+                              "(state inherited from the parent that no fork handler resets, e.g. a libc-internal lock held by a thread that does not exist in the child)"
+                              % (sname, bad[0][2], "never returns (5 s alarm)" if bad[0][3:] == ["signal", "14"] else "ends with " + " ".join(bad[0][3:])),
+                              {"failing_input": {"mode": "forkstress", "config": sname, "threads": nthr, "forks": forks, "first_blocked_fork": int(bad[0][2])},
+                               "mode": "forkstress", "config": sname, "threads": nthr, "forks": forks, "ini": sini.decode()})
+            elif r["status"] != 0 or not done:
+                run.violation("forkstress:caller-died:%s" % r["status"], "crash", "fork stress (%s) ended with status %s: %s" % (sname, r["status"], r["stderr"][-300:]),
+                              {"failing_input": {"mode": "forkstress", "config": sname, "threads": nthr, "forks": forks}, "mode": "forkstress", "config": sname, "threads": nthr, "forks": forks, "ini": sini.decode()})
         # ---------------------------------------------------------------- the fork that begins before the one-time initialisation
         rr = run_mt(run, lib, "forkrace", 2, 1, "-", OUTPUTS[0][1], "forkrace", timeout=120)
         ro = outcome(rr)
@@ -167,7 +220,7 @@ def check(run):
         run.violation("proof:%s" % failed, "proof", "proof obligation no longer checks: %s\n%s" % (failed, log[-1500:]), {"theorem": failed, "coq_log": log[-3000:]})
     chk = coqchk_props(run, "Properties_C10") if (ok and not quick) else None
     run.coverage.update({
-        "evaluations": len(results) + 1,
+        "evaluations": len(results) + 1 + st.get("sigfork", 0) + st.get("forkstress", 0),
         "distinct_nontrivial": len(set((n, k, g) for (n, _, _, k, g) in plans)) + 1,
         "rule": "every lock acquisition OBSERVED in a wrapped call (any pthread mutex, rwlock, flock; from a traced run: %s) x output types %s; children of children for %s; a second thread parked right after its k-th acquisition, "
                 "fork attempted, the parked thread released only after the prepare handler asked for the mutex or fork() returned; child's exec under a 5 s alarm; "
@@ -176,7 +229,7 @@ def check(run):
         "samples": [{"output": plans[0][0], "window": plans[0][3], "observed": results[0][1]}] if results else [],
         "distribution": {"windows_run": nwin, "lock_windows": {n: v[1] for n, v in calib.items()}, "other_locks": {n: [x for x in v[2] if x[0] != "m"] for n, v in calib.items()}, "handlers": hs,
                          "fork_delayed": len([1 for (_, o, _) in results if o["fork"] == "delayed"]), "fork_immediate": len([1 for (_, o, _) in results if o["fork"] == "immediate"]),
-                         "child_completes": len([1 for (_, o, _) in results if o["child"] == "completes"]), "first_call_race_child": ro["child"], "coqchk": chk},
+                         "child_completes": len([1 for (_, o, _) in results if o["child"] == "completes"]), "first_call_race_child": ro["child"], "sigfork_windows": st.get("sigfork", 0), "forkstress_forks": st.get("forkstress", 0), "coqchk": chk},
         "traces_validated_against_impl": len(results) + 1,
     })
     return run.finish(level="proof",
@@ -195,6 +248,17 @@ def replay(run, path):
         o = outcome(r)
         print("observed:", o)
         rc = 0 if (o["child"] == "completes" and o["parent_call"] and (not rep.get("grandchild") or o["grandchild"] == "completes")) else 1
+    elif rep.get("mode") == "sigfork":
+        r = run_mt(run, lib, "sigfork", 2, 1, str(rep["window"]), rep["ini"].encode(), "replay", timeout=60)
+        o = outcome(r)
+        ret = any(f[:2] == ["fork", "returned"] for f in r["trace"]["other"])
+        print("observed:", o, "fork returned:", ret)
+        rc = 0 if (ret and o["child"] == "completes") else 1
+    elif rep.get("mode") == "forkstress":
+        r = run_mt(run, lib, "forkstress", rep.get("threads", 3), 1, str(rep.get("forks", 60)), rep["ini"].encode(), "replay", timeout=600)
+        fs = [f for f in r["trace"]["other"] if f[0] == "forkstress"]
+        print("observed:", fs)
+        rc = 1 if [f for f in fs if f[1] == "child"] else 0
     elif rep.get("mode") == "forkrace":
         r = run_mt(run, lib, "forkrace", 2, 1, "-", rep["ini"].encode(), "replay", timeout=120)
         o = outcome(r)
